@@ -18,6 +18,7 @@ META = {
         "tolerance |got-ref| <= 1e-12*sum|terms| (+1e-300); derived Hm0/Tm01/Tm02 1e-11 relative; NaN==NaN, inf==inf",
         "additivity is asserted for pairs sharing their NaN mask (NaN+x is NaN, then counted as zero)",
         "Tm02<=Tm01 and the 1/f bounds asserted only for non-negative spectra with m0>0 (slack 1e-12)",
+        "the defining integral is also asserted after a documented in-place modification of the same object (multiply(inplace=True) with and without dimension labels, fillna, item assignment) following an earlier query of the same moment",
     ],
 }
 
@@ -26,7 +27,7 @@ META = {
 def case(draw):
     two_d = draw(st.integers(0, 2)) == 0
     if two_d:
-        s = draw(GS.spec2d_case(max_nf=20, max_nd=36, max_cells=6000))
+        s = draw(GS.spec2d_case(max_nf=20, max_nd=36, max_cells=6000, relabel=True))
     else:
         s = draw(GS.spec1d_case())
     b = draw(GS.band(s["f"]))
@@ -124,6 +125,34 @@ def run(c):
     a3 = GS.case_arrays(sc3)
     ref2, abs2 = O.moment(f, e_ref(a3, sc3), p, fmin, fmax)
     cmp("moment_of_sum", (spec + spec2).frequency_moment(p, fmin, fmax), ref_p + ref2, abs_p + abs2, rel=4e-12)
+
+    # moments follow in-place modifications of the same object (query, modify in place, query again)
+    spec_m = GS.build(sc)
+    first = np.asarray(spec_m.frequency_moment(p, fmin, fmax).values, dtype=float)
+    _ = spec_m.hm0(fmin, fmax), spec_m.tm02(fmin, fmax)
+    weights = 1.0 + np.arange(len(f)) / max(len(f), 1)
+    how = c["seed2"] % 4
+    if how == 0:
+        spec_m.multiply(weights, ["frequency"], inplace=True)
+        e_new = np.array(sc["e"], dtype=float).reshape(a["e"].shape) * (weights[:, None] if sc["kind"] == "2d" else weights)
+    elif how == 1:
+        full = np.broadcast_to(weights[:, None] if sc["kind"] == "2d" else weights, spec_m.shape()).copy()
+        spec_m.multiply(full, inplace=True)
+        e_new = np.array(sc["e"], dtype=float).reshape(a["e"].shape) * (weights[:, None] if sc["kind"] == "2d" else weights)
+    elif how == 2:
+        spec_m.fillna(cc)
+        e_new = np.array(sc["e"], dtype=float).reshape(a["e"].shape)
+        e_new = np.where(np.isnan(e_new), cc, e_new)
+    else:
+        spec_m["variance_density"] = spec_m.dataset["variance_density"] * cc
+        e_new = np.array(sc["e"], dtype=float).reshape(a["e"].shape) * cc
+    sc_new = dict(sc)
+    sc_new["e"] = e_new.reshape(-1).tolist()
+    ref_new, abs_new = O.moment(f, e_ref(GS.case_arrays(sc_new), sc_new), p, fmin, fmax)
+    cmp("moment_after_in_place_modification", spec_m.frequency_moment(p, fmin, fmax), ref_new, abs_new, rel=4e-12)
+    with np.errstate(all="ignore"):
+        m0n, _ = O.moment(f, e_ref(GS.case_arrays(sc_new), sc_new), 0, fmin, fmax)
+        cmp("hm0_after_in_place_modification", spec_m.hm0(fmin, fmax), 4 * np.sqrt(m0n), None, rel=1e-11)
 
     nb = int(mask.sum())
     eb = e[:, mask]
